@@ -239,6 +239,7 @@ add(Contract(
     'structural_fields:normalize_count_condition_into_a_callable',
     params={'count_raw_condition': 'dyn', 'ghost_pkt': 'ref:Packet', 'ghost_k': 'kw'},
     ensures=[
+        "iscallable(result)",
         # a callable is taken as it is
         "implies(iscallable(count_raw_condition), same(result, count_raw_condition))",
         # a constant count: the callable returns that constant
@@ -284,3 +285,41 @@ add(Contract(
     ],
     raises={'OtherException*': []},
     modifies=['slot(packet, in:n == self.field_name or owns(self.prototype_field, n))'], allocates=True))
+
+# ---------------------------------------------------------------- compile steps of the containers (C05, C08, C10)
+# the wrapped element field is renamed to the scratch slot of the container and compiled WITH THE CLASS OPTIONS of the
+# enclosing packet (class-default byte order, alignment): an Int inside .when(...) / .repeated(...) follows the class default
+_elem_compile = ["same(arg_f, self.prototype_field)", "arg_position == -1", "sameconf(arg_bisturi_conf, bisturi_conf)"]
+add(Contract(
+    'structural_fields:Optional._compile',
+    params={'self': 'ref:Optional', 'position': 'int', 'fields': 'list', 'bisturi_conf': 'conf'},
+    requires=["hasattr_tmp(self)", "not same(self.prototype_field, self)"],
+    ensures=["g_elem_compiled", "self.opt_elem_field_name == '_opt_elem__' + self.field_name",
+             "self.prototype_field.field_name == self.opt_elem_field_name", "iscallable(self.when)",
+             "len(result) >= 2"],
+    raises={'OtherException*': []},
+    call_asserts={'FIELD._compile': _elem_compile + ["arg_f.field_name == '_opt_elem__' + self.field_name"]},
+    call_effects={'FIELD._compile': {'g_elem_compiled': 'True'}},
+    ghost_init={'g_elem_compiled': 'False'}, ghost_kinds={'g_elem_compiled': 'bool'},
+    modifies=['self.opt_elem_field_name', 'self.when', 'self.tmp', 'self.prototype_field.*'], allocates=True, returns='list'))
+
+add(Contract(
+    'structural_fields:Sequence._compile',
+    params={'self': 'ref:Sequence', 'position': 'int', 'fields': 'list', 'bisturi_conf': 'conf'},
+    requires=["hasattr_tmp(self)", "not same(self.prototype_field, self)", "istuple(self.tmp, 3)"],
+    ensures=["g_elem_compiled", "self.seq_elem_field_name == '_seq_elem__' + self.field_name",
+             "self.prototype_field.field_name == self.seq_elem_field_name",
+             # the element alignment: the declared one, else the class-wide 'align' option, else 1
+             "implies(not isnone(old(self.aligned_to)), same(self.aligned_to, old(self.aligned_to)))",
+             "implies(isnone(old(self.aligned_to)), same(self.aligned_to, conf_get(bisturi_conf, 'align', 1)))",
+             # exactly one of count / until drives the loop
+             "isnone(self.get_how_many_elements) == isnone(tupitem(old(self.tmp), 3, 0))",
+             "isnone(self.until_condition) == (not isnone(tupitem(old(self.tmp), 3, 0)))",
+             "isnone(self.when) == isnone(tupitem(old(self.tmp), 3, 2))",
+             "len(result) >= 2"],
+    raises={'OtherException*': []},
+    call_asserts={'FIELD._compile': _elem_compile + ["arg_f.field_name == '_seq_elem__' + self.field_name"]},
+    call_effects={'FIELD._compile': {'g_elem_compiled': 'True'}},
+    ghost_init={'g_elem_compiled': 'False'}, ghost_kinds={'g_elem_compiled': 'bool'},
+    modifies=['self.seq_elem_field_name', 'self.when', 'self.aligned_to', 'self.get_how_many_elements', 'self.until_condition',
+              'self.prototype_field.*'], allocates=True, returns='list'))
